@@ -252,7 +252,7 @@ func init() {
 		for i := 0; i < n; i++ {
 			ti := types[i%len(types)]
 			cr := r.fork()
-			v := u.genMsg(cr, ti, 'm', genOpts{depth: 3, unknownOK: true})
+			v := u.genMsgCapped(cr, ti, genOpts{depth: 3, unknownOK: true})
 			u.msgCase(out, ti, v, buildOpts{emptyNonNil: cr.intn(4) == 0})
 		}
 		return nil
